@@ -102,7 +102,8 @@ class Worker:
 
 def run_cases(module: str, cases: list[dict], *, workers: int, case_timeout: float,
               quiescence_after: float | None = None, env_extra: dict | None = None,
-              startup_timeout: float = 180.0, progress: bool = True) -> list[dict]:
+              startup_timeout: float = 180.0, progress: bool = True,
+              rss_limit: int | None = None) -> list[dict]:
     """Run every case in some worker; returns one result record per case (same order).
 
     Result record: {"case": case, "res": {...}} | {"case": case, "error": str, "sedpack_frame": bool}
@@ -170,6 +171,15 @@ def run_cases(module: str, cases: list[dict], *, workers: int, case_timeout: flo
                 worker.kill()
                 return {"died": f"worker exited (status {code})\n{tail}"}
             elapsed = time.monotonic() - start
+            if rss_limit is not None and worker.proc:
+                try:
+                    rss = int(open(f"/proc/{worker.proc.pid}/statm").read().split()[1]) * os.sysconf("SC_PAGE_SIZE")
+                except (OSError, ValueError, IndexError):
+                    rss = 0
+                if rss > rss_limit:
+                    worker.kill()
+                    return {"died": f"memory limit: resident set {rss >> 20} MiB exceeded {rss_limit >> 20} MiB "
+                                    f"after {elapsed:.0f}s (killed by the parent's memory guard)"}
             if next_probe is not None and elapsed >= next_probe and worker.proc:
                 diag = quiescence.diagnose(worker.proc.pid, worker.log_path)
                 if diag["verdict"] == "quiescent":
